@@ -172,8 +172,8 @@ func (m *Manager) populate() error {
 	sort.Strings(files)
 	var max uint32
 	for _, path := range files {
-		var fid uint32
-		if _, err := fmt.Sscanf(filepath.Base(path), "%05d.vlog", &fid); err != nil {
+		fid, ok := parseSegmentName(filepath.Base(path))
+		if !ok {
 			continue
 		}
 		if fid > max {
@@ -182,8 +182,8 @@ func (m *Manager) populate() error {
 	}
 	m.maxFid = max
 	for _, path := range files {
-		var fid uint32
-		if _, err := fmt.Sscanf(filepath.Base(path), "%05d.vlog", &fid); err != nil {
+		fid, ok := parseSegmentName(filepath.Base(path))
+		if !ok {
 			continue
 		}
 		readonly := fid != max
